@@ -292,6 +292,9 @@ namespace vf
          r.other_exception = true;
          r.other_what = e.what();
       }
+      catch( const fuel_exhausted& ) {
+         r.k = pm::FUEL;
+      }
       r.end = m.off( in.current() );
       return r;
    }
@@ -425,6 +428,11 @@ namespace vf
       }
       catch( const std::out_of_range& ) {
          // coverage<> itself threw map::at (rules that call sub-rules outside their subs_t): no counters were produced
+         r.k = pm::FUEL;
+         usable = false;
+      }
+      catch( const fuel_exhausted& ) {
+         // the observer's evaluation budget ran out (exponential grammar on a long input): nothing is judged
          r.k = pm::FUEL;
          usable = false;
       }
@@ -672,7 +680,13 @@ namespace vf
          m.slots = c.slots;
          m.as = c.as;
          const pm::outcome& want = mr.want;
-         const impl_result got = cf.fn( pb );
+         impl_result got;
+         try {
+            got = cf.fn( pb );
+         }
+         catch( const fuel_exhausted& ) {
+            got.k = pm::FUEL;  // the observer's budget ran out inside a facility that does not catch it: nothing is judged
+         }
          R.eval();
          if( m.aborted || got.k == pm::FUEL ) {
             ++R.inconclusive;
